@@ -227,7 +227,7 @@ func c26(c *vc.Ctx) {
 		c26CacheOpen(p)
 		c.CapNote("VERIF_C26_CACHE is set: bash results may come from a previous run (development aid)")
 	}
-	c.Rule = "generated families, run first (c26_fam.go): (case) every case clause of 1..3 items (thorough 4), item = pattern kind {selective *k*, catch-all *} x terminator {;; ;& ;;& none-if-last} with body `echo k`, run for every match vector of the subject word (quick: all patterns selective, or the catch-all last), plus one failing / empty body, the same under set -e with one subject per program, and behind a function call / in a subshell (thorough: $( ), pipeline, bare); (state) inherited state x=X a=(A B C) declare -A m f() positional parameters, options and cwd set up first, one non-initialising mutation (thorough 30, quick 12: element assignment, append, element append, unset element, assoc element/new key/unset key, x+=, unset x, set --, function redefinition, set -f) inside one of 17 contexts (quick 12: plain, group, function, subshell, $( ), first/middle/last pipeline stage, background job, function with subshell body / in a pipeline / in the background), global and function-local state, followed by a state epilogue (scalars, ${a[*]} ${!a[*]} ${#a[@]}, ${m[key]}, $# $*, f, $-, pipefail, cwd); thorough also two mutations in one context and a mutation in a child context followed by one in the parent; (chain) every && / || chain of 2..3 commands (thorough 4) over all status vectors, bare and negated, every if/elif/else chain of that length over all condition vectors, break/continue N for 1 <= N <= depth <= 3 (thorough 4) in for and while loops. Then " + fmt.Sprintf("grammar G_exec: %d feature atoms (control flow, functions/return, locals, subshells, command substitution, pipelines of builtins, here-docs/strings, file redirections, case, [[ ]], test, arrays, set -e/pipefail, EXIT/ERR traps, break/continue levels; %d of them 'core', %d 'setup') composed through %d unary and %d binary contexts; quick: every atom in every unary context alone and after each of 4 setup atoms (set -e, pipefail, EXIT trap, ERR trap), and every binary context over core x core; thorough: all setups in the first family, binary contexts over all x core and core x all, core setup + binary(core,core), two nested unary contexts, and two of the 4 setups + unary(core). Every program ends with `echo end:$?`. Plus the 1-edit literal mutants (quick: integer neighbours and deletion of literal arguments of seeds <= 80 bytes; thorough: also replacement by x / '' and duplication, all seeds) of the string literals of interp/interp_test.go that parse, terminate, and already agree with bash unmutated. distinct = distinct (stdout,status) results of the interpreter", len(c26Atoms), c26CountAtoms(func(a c26Atom) bool { return a.Core }), c26CountAtoms(func(a c26Atom) bool { return a.Setup }), len(c26Unary), len(c26Binary))
+	c.Rule = "generated families, run first (c26_fam.go): (case) every case clause of 1..3 items (thorough 4), item = pattern kind {selective *k*, catch-all *} x terminator {;; ;& ;;& none-if-last} with body `echo k`, run for every match vector of the subject word (quick: all patterns selective, or the catch-all last), plus one failing / empty body, the same under set -e with one subject per program, and behind a function call / in a subshell (thorough: $( ), pipeline, bare); (state) inherited state x=X a=(A B C) sparse s=([1]=Q [2]=R) declare -A m f() positional parameters, options and cwd set up first, one non-initialising mutation (thorough 32, quick 12: element assignment, append, element append, unset element, assoc element/new key/unset key, x+=, unset x, set --, function redefinition, set -f) inside one of 17 contexts (quick 12: plain, group, function, subshell, $( ), first/middle/last pipeline stage, background job, function with subshell body / in a pipeline / in the background), global and function-local state, followed by a state epilogue (scalars, ${a[*]} ${!a[*]} ${#a[@]}, ${m[key]}, $# $*, f, $-, pipefail, cwd); thorough also two mutations in one context and a mutation in a child context followed by one in the parent; (chain) every && / || chain of 2..3 commands (thorough 4) over all status vectors, bare and negated, every if/elif/else chain of that length over all condition vectors, break/continue N for 1 <= N <= depth <= 3 (thorough 4) in for and while loops. Then " + fmt.Sprintf("grammar G_exec: %d feature atoms (control flow, functions/return, locals, subshells, command substitution, pipelines of builtins, here-docs/strings, file redirections, case, [[ ]], test, arrays, set -e/pipefail, EXIT/ERR traps, break/continue levels; %d of them 'core', %d 'setup') composed through %d unary and %d binary contexts; quick: every atom in every unary context alone and after each of 4 setup atoms (set -e, pipefail, EXIT trap, ERR trap), and every binary context over core x core; thorough: all setups in the first family, binary contexts over all x core and core x all, core setup + binary(core,core), two nested unary contexts, and two of the 4 setups + unary(core). Every program ends with `echo end:$?`. Plus the 1-edit literal mutants (quick: integer neighbours and deletion of literal arguments of seeds <= 80 bytes; thorough: also replacement by x / '' and duplication, all seeds) of the string literals of interp/interp_test.go that parse, terminate, and already agree with bash unmutated. distinct = distinct (stdout,status) results of the interpreter", len(c26Atoms), c26CountAtoms(func(a c26Atom) bool { return a.Core }), c26CountAtoms(func(a c26Atom) bool { return a.Setup }), len(c26Unary), len(c26Binary))
 	c.Assumptions = []string{
 		"bash 5.2.15 is the oracle; stderr is ignored on both sides; environment LC_ALL=C.utf8 PATH=/nonexistent HOME=/nonexistent, stdin empty, cwd a fresh scratch directory",
 		"external commands are unavailable on both sides (interp: exec handler returning 127; bash: empty PATH), so only builtins run",
